@@ -18,7 +18,7 @@ from ..core import EventLog, RunResult, Violation, call, exc_name
 PROP = "C06"
 TIERS = {"quick": 20000, "thorough": 1000000}
 WALL_CAP = {"quick": 900, "thorough": 6 * 3600}
-SHRINK_BUDGET = 500
+SHRINK_BUDGET = 250
 
 COMPONENTS = {
     "real": ["biotite.structure.io.pdbx.cif (CIFFile/CIFBlock/CIFCategory/CIFColumn, _escape, tokeniser)",
